@@ -1,5 +1,6 @@
 """C16 - No number without a solution: failures are reported, not fabricated."""
 from pyvc import components, runner
+from harness import components as hc
 
 FUNCS = ['PEPit/point.py::Point.eval', 'PEPit/expression.py::Expression.eval', 'PEPit/constraint.py::Constraint.eval',
          'PEPit/constraint.py::Constraint.eval_dual', 'PEPit/psd_matrix.py::PSDMatrix.eval_dual']
@@ -8,6 +9,13 @@ FUNCS = ['PEPit/point.py::Point.eval', 'PEPit/expression.py::Expression.eval', '
 def run(run):
     runner.load_contracts()
     components.ast_functions(run, FUNCS, run.tier, rt_quick=25, rt_thorough=150)
+    hc.solve_scenarios(run, 'C16', [('no_value', (run.seed + i,)) for i in range(4 if run.tier == 'quick' else 20)] + [('invalid_options', (run.seed,))],
+                       'rt-solve-no-value', 'unbounded and infeasible models solved in both return modes with two solvers: solve returns None and every accessor '
+                       '(leaf / derived point, expression, objective, constraint value and dual) raises ValueError; invalid option values raise ValueError')
     run.trust('pyvc AST engine + z3 5.1 / cvc5 1.0.3')
     run.assume('numpy 1-D arrays are mathematical vectors (abstract sort Vec with zeros / + / scalar * / dot / dim): assumed external algebra',
                'cvxpy leaves variable values at None when the problem is not solved (assumed external contract)')
+
+
+def replay(rec, path):
+    return hc.replay_scenario(rec, 'C16', path)
